@@ -87,7 +87,10 @@ PROPS = {
         nontrivial=has(r"^t h r\d+ T0"),
     ),
     "C09": dict(
-        profiles=[("graphs", dict(quick=150, thorough=4000), dict(take_p=0.35)), ("general", dict(quick=50, thorough=800), {})],
+        profiles=[("graphs", dict(quick=150, thorough=4000), dict(take_p=0.35)), ("general", dict(quick=50, thorough=800), {}),
+                  # inserts and removes along archetype edges that were cached before a component type was removed and its
+                  # index reused (round-7 change C09_W_1: the stale-edge sweep of remove_component made a no-op)
+                  ("cascade", dict(quick=40, thorough=1000), {})],
         channels=["store", "trace", "evdrops", "cdrops"],
         rule="a handler observes, consumes or reacts to an Insert/Remove/Despawn/Spawn event",
         nontrivial=has(r"^t h \S+ (InsK|RemK|Despawn|Spawn)"),
@@ -103,7 +106,9 @@ PROPS = {
         profiles=[("graphs", dict(quick=200, thorough=6000), {}), ("storage", dict(quick=40, thorough=600), {}),
                   ("graphs", dict(quick=80, thorough=2500), dict(panic_p=0.2, take_p=0.35, stray_p=0.15)),
                   # event types removed and registered again (registry slot reuse) with events sent afterwards
-                  ("cascade", dict(quick=80, thorough=2000), {})],
+                  ("cascade", dict(quick=80, thorough=2000), {}),
+                  # first use of a type from a world-level call while registration notifications panic / take / react
+                  ("firstuse", dict(quick=60, thorough=2000), {})],
         channels=["evdrops", "cdrops"],
         rule="events are destroyed on at least two different paths (completion, consumed, dead target)",
         nontrivial=both(has(r"^ed \d"), either(has(r"^t  took"), has(r"^t h .*@(null|\?)"))),
@@ -116,7 +121,8 @@ PROPS = {
     ),
     "C13": dict(
         profiles=[("graphs", dict(quick=200, thorough=6000), dict(panic_p=0.25)),
-                  ("graphs", dict(quick=120, thorough=4000), dict(panic_p=0.1, stray_p=0.2, take_p=0.3))],
+                  ("graphs", dict(quick=120, thorough=4000), dict(panic_p=0.1, stray_p=0.2, take_p=0.3)),
+                  ("firstuse", dict(quick=80, thorough=2500), {})],
         channels=["evdrops", "cdrops", "ret"],
         rule="a handler panics while other events are still queued",
         nontrivial=has(r"^panic user"),
@@ -137,7 +143,8 @@ PROPS = {
         nontrivial=both(has(r"^(rmh|rmev)"), has(r"^ret some")),
     ),
     "C16": dict(
-        profiles=[("wide", dict(quick=30, thorough=800), dict(bases=("cascade", "lifecycle"))), ("cascade", dict(quick=150, thorough=4000), {}), ("lifecycle", dict(quick=60, thorough=2000), {})],
+        profiles=[("wide", dict(quick=30, thorough=800), dict(bases=("cascade", "lifecycle"))), ("cascade", dict(quick=150, thorough=4000), {}), ("lifecycle", dict(quick=60, thorough=2000), {}),
+                  ("firstuse", dict(quick=40, thorough=1500), {})],
         channels=["ids", "reg", "trace", "ret"],
         rule="an item is registered again after removal (index reuse) or re-registered while present",
         nontrivial=either(has(r"^ret dup"), both(has(r"^(rmc|rmev|rmh)"), has(r"^(addc|addev|addh)"))),
